@@ -40,7 +40,25 @@ func formatFunctionName(name string) string {
 }
 
 func formatFieldName(name string) string {
-	return tools.UpperCamelCase(name)
+	fieldName := tools.UpperCamelCase(name)
+
+	// a field and a method of a struct can't have the same name
+	if isGeneratedMethodName(fieldName) {
+		return fieldName + "Field"
+	}
+
+	return fieldName
+}
+
+// isGeneratedMethodName tells whether a name is the one of a method that can be
+// generated for a struct.
+func isGeneratedMethodName(input string) bool {
+	switch input {
+	case "Equals", "Validate", "MarshalJSON", "UnmarshalJSON", "UnmarshalJSONStrict":
+		return true
+	}
+
+	return false
 }
 
 func escapeVarName(varName string) string {
